@@ -2122,3 +2122,30 @@ Theorem mute_detected_spec :
   mute_detected true true = true /\ mute_detected true false = true /\
   mute_detected false false = true /\ mute_detected false true = false.
 Proof. repeat split. Qed.
+
+(* ---- the in-memory listening table (C09-G) ------------------------------------------------------------------ *)
+
+(* a Stop of a listener that does not listen (any more) changes nothing: in particular not the
+   registration of whoever listens at that address now *)
+Theorem stale_stop_harmless tb l : ll_on l = false -> ll_stop false tb l = (tb, l).
+Proof. intros H. unfold ll_stop. now rewrite H. Qed.
+
+Theorem restart_survives_old_stop addr : restart_then_stop_old false addr = Some 2.
+Proof. unfold restart_then_stop_old. cbn. now rewrite !upd_same. Qed.
+
+(* the variant that releases the address first deletes the successor's registration *)
+Theorem old_stop_unregisters_successor_refuted addr : restart_then_stop_old true addr = None.
+Proof. unfold restart_then_stop_old. cbn. now rewrite !upd_same. Qed.
+
+(* ---- TCPConn.Send's mutex (C09-H) ----------------------------------------------------------------------------- *)
+
+Theorem conn_send_well_bracketed ok : wfp false (conn_send_prog ok false).
+Proof. destruct ok; cbn; auto. Qed.
+
+(* a failed write with the leaking variant, then any other Send on the same connection object (the next
+   message of a multi-message Router.Send, or another goroutine): the second Send waits for ever *)
+Theorem send_mutex_leak_refuted :
+  exists s, mrun (mkM None [conn_send_prog false true; conn_send_prog true true]) [0; 0] = Some s /\
+            nth_error (progs s) 0 = Some [] /\ mtx s = Some 0 /\
+            mstep s 1 = None /\ nth_error (progs s) 1 <> Some [].
+Proof. eexists. split; [vm_compute; reflexivity|]. repeat split; vm_compute; congruence. Qed.
